@@ -73,10 +73,11 @@ def Reach (a h b : Bytes) (sa sh sd : St) : Prop :=
       Tree.strs (Tree.readBlankL false true
         ((docKids sa).2 ++ Tree.mapSegsL (moveSeg ((a ++ indepSep a).length : Int)) (docKids sh).2))
 
-/-- **composition**: `IndependentBlocks a h b` from `Reach` — every `a`, `h`, `b` -/
-theorem independent_blocks_of_reach (a h b : Bytes)
+/-- **composition**: `IndependentBlocks a h b` from `Reach`, which is only asked for when `a` does not end in a raw
+    block (the statement's own proviso) -/
+theorem independent_blocks_of_reach_raw (a h b : Bytes)
     (hreach : ∀ sa sh sd, run a = .ok sa → run (headingLine h) = .ok sh → run (indepDoc a h b) = .ok sd →
-      Reach a h b sa sh sd) :
+      endsInRawBlock sa = false → Reach a h b sa sh sd) :
     ∀ e g, indepPair a h b = some (e, g) → e = g := by
   intro e g hp
   unfold indepPair at hp
@@ -93,8 +94,10 @@ theorem independent_blocks_of_reach (a h b : Bytes)
   simp only at hp
   split at hp
   · cases hp
-  · rw [hsd] at hp
-    obtain ⟨F, stats, s, fuel, hF, hfl, hd, hstart, hcont, hold⟩ := hreach sa sh sd hsa hsh hsd
+  · next hraw =>
+    rw [hsd] at hp
+    obtain ⟨F, stats, s, fuel, hF, hfl, hd, hstart, hcont, hold⟩ :=
+      hreach sa sh sd hsa hsh hsd (by simpa using hraw)
     obtain ⟨sb', hsb', hrel⟩ := shift_invariance_all F hF hfl b hstart fuel sd hcont
     rw [hsb] at hsb'
     cases hsb'
@@ -110,5 +113,12 @@ theorem independent_blocks_of_reach (a h b : Bytes)
       obtain ⟨he, hg⟩ := hp
       rw [← he, ← hg]
       exact hstr
+
+/-- **composition**: `IndependentBlocks a h b` from `Reach` — every `a`, `h`, `b` -/
+theorem independent_blocks_of_reach (a h b : Bytes)
+    (hreach : ∀ sa sh sd, run a = .ok sa → run (headingLine h) = .ok sh → run (indepDoc a h b) = .ok sd →
+      Reach a h b sa sh sd) :
+    ∀ e g, indepPair a h b = some (e, g) → e = g :=
+  independent_blocks_of_reach_raw a h b (fun sa sh sd h1 h2 h3 _ => hreach sa sh sd h1 h2 h3)
 
 end GM.Blocks.Sh
